@@ -709,9 +709,14 @@ func init() {
 		}
 		return tm(h.F[1]), sl.Elem()
 	}
-	heapShuffle := func(ex *Exec, st *State, p *Term, et types.Type, delta int64) {
+	// heapShuffle rearranges the slice behind p. Every element of the new slice is an element of the
+	// old one (or the pushed value): new[j] == old[perm(j)] with perm an uninterpreted index
+	// function (multiplicities and the heap order are not modelled). Returns the old and new headers
+	// and the pre-state for the caller's own facts.
+	heapShuffle := func(ex *Exec, st *State, p *Term, et types.Type, delta int64, pushed Val) (*State, *Agg) {
 		slT := types.NewSlice(et)
 		cur := st.heap.load(p, slT, nil).(*Agg)
+		pre := st.clone()
 		ex.havocElems(st, tm(cur.F[0]), et)
 		var fs []*Term
 		nv := freshVal(slT, "heap.slice", &fs).(*Agg)
@@ -719,18 +724,69 @@ func init() {
 		ex.fact(nil, Eq(tm(nv.F[2]), Add(tm(cur.F[2]), IntT(delta))))
 		ex.assumeOlder(nv)
 		st.heap.store(p, slT, nv)
+		// new[j] (j over backing-array indices) is old[perm(j)] or the pushed value
+		ex.names["heapperm"]++
+		permName := fmt.Sprintf("heapperm!%d", ex.names["heapperm"])
+		j := BoundVar("hj", SInt)
+		pj := UF(permName, SInt, j)
+		// (leaves inside array fields of the element, e.g. the bytes of an ID, are left out of the
+		// fact: fewer equalities, still sound)
+		nw := scalarLeaves(st.heap.load(Elt(tm(nv.F[0]), j), et, nil), et)
+		od := scalarLeaves(pre.heap.load(Elt(tm(cur.F[0]), pj), et, nil), et)
+		inNew := And(Le(tm(nv.F[1]), j), Lt(j, Add(tm(nv.F[1]), tm(nv.F[2]))))
+		eqAll := func(a, b []*Term) *Term {
+			var cs []*Term
+			for k := range a {
+				cs = append(cs, SameVal(a[k], b[k]))
+			}
+			return And(cs...)
+		}
+		fromOld := And(Le(tm(cur.F[1]), pj), Lt(pj, Add(tm(cur.F[1]), tm(cur.F[2]))), eqAll(nw, od))
+		alt := fromOld
+		if pushed != nil {
+			alt = Or(fromOld, eqAll(nw, scalarLeaves(pushed, et)))
+		}
+		ex.fact(st, Forall([]*Term{j}, Implies(inNew, alt)))
+		return pre, cur
 	}
-	regEff("container/heap.Push", "the element is added to the slice-backed heap (length + 1); element order is not modelled", func(ex *Exec, a []Val, st *State, sig *types.Signature) []Val {
+	unboxAs := func(ex *Exec, st *State, x Val, et types.Type) Val {
+		xa, ok := x.(*Agg)
+		if !ok || len(xa.F) != 2 {
+			return nil
+		}
+		id, lit := tm(xa.F[0]).IsInt()
+		if !lit || id == 0 || !types.Identical(ex.typeOf[int(id)], et) {
+			return nil
+		}
+		if pointerShaped(et) {
+			return xa.F[1]
+		}
+		return st.heap.load(tm(xa.F[1]), et, nil)
+	}
+	regEff("container/heap.Push", "the element is added to the slice-backed heap (length + 1); afterwards every element is an old element or the pushed one; element order is not modelled", func(ex *Exec, a []Val, st *State, sig *types.Signature) []Val {
 		p, et := heapObj(ex, st, a[0].(*Agg))
-		heapShuffle(ex, st, p, et, 1)
+		pushed := unboxAs(ex, st, a[1], et)
+		if pushed == nil {
+			var fs []*Term
+			pushed = freshVal(et, "heap.pushed", &fs)
+			ex.addFacts(nil, fs)
+		}
+		heapShuffle(ex, st, p, et, 1, pushed)
 		return nil
 	})
-	regEff("container/heap.Pop", "removes and returns an element of the slice-backed heap (length - 1); that it is the minimum w.r.t. Less is assumed, not modelled", func(ex *Exec, a []Val, st *State, sig *types.Signature) []Val {
+	regEff("container/heap.Pop", "removes and returns an element of the slice-backed heap (length - 1): the result and every remaining element are old elements; that the result is the minimum w.r.t. Less is assumed, not modelled", func(ex *Exec, a []Val, st *State, sig *types.Signature) []Val {
 		p, et := heapObj(ex, st, a[0].(*Agg))
-		heapShuffle(ex, st, p, et, -1)
+		pre, cur := heapShuffle(ex, st, p, et, -1, nil)
 		var fs []*Term
 		v := freshVal(et, "heap.popped", &fs)
 		ex.addFacts(nil, fs)
+		k := Fresh("heap.poppedIdx", SInt)
+		pv, ov := scalarLeaves(v, et), scalarLeaves(pre.heap.load(Elt(tm(cur.F[0]), k), et, nil), et)
+		var eqs []*Term
+		for q := range pv {
+			eqs = append(eqs, SameVal(pv[q], ov[q]))
+		}
+		ex.fact(st, Implies(Gt(tm(cur.F[2]), IntT(0)), And(Le(tm(cur.F[1]), k), Lt(k, Add(tm(cur.F[1]), tm(cur.F[2]))), And(eqs...))))
 		return []Val{ex.makeInterface(st, v, et)}
 	})
 	// ---- slices.Sort: afterwards adjacent elements are in non-decreasing order (permutation not modelled)
@@ -878,3 +934,20 @@ func (ex *Exec) ghostHavoc(st *State, g *GhostDecl, key *Term) {
 var ghostSorts = map[string]string{}
 
 var _ = strings.TrimSpace
+
+// scalarLeaves flattens a value of type t, skipping everything inside array-typed parts.
+func scalarLeaves(v Val, t types.Type) []*Term {
+	switch kindOf(t) {
+	case kArray:
+		return nil
+	case kStruct:
+		st := t.Underlying().(*types.Struct)
+		a := v.(*Agg)
+		var out []*Term
+		for i := 0; i < st.NumFields(); i++ {
+			out = append(out, scalarLeaves(a.F[i], st.Field(i).Type())...)
+		}
+		return out
+	}
+	return flatten(v, nil)
+}
